@@ -99,6 +99,7 @@ type vCase struct {
 	Order      []string `json:"order"`
 	API        string   `json:"api"`
 	Unreadable bool     `json:"unreadable"`
+	Via        string   `json:"via"` // chan mode: "" (ParseStream), "file", "fifo", "dir", "procdir" (ParseFile)
 	Policy     string   `json:"policy"`
 	Jitter     int64    `json:"jitter"`
 	Chunks     []string `json:"chunks"`
@@ -581,6 +582,10 @@ func runChan(c *vCase) obj {
 			return
 		}
 		src := unhex(c.Src)
+		if c.Via != "" {
+			p.ParseFile(chanFile(c.Via, src, c.Jitter))
+			return
+		}
 		var r io.Reader = &jitterReader{r: bytes.NewReader(src), jitter: jitter}
 		if c.FailAt != nil {
 			r = &failingReader{data: src, at: *c.FailAt}
@@ -623,6 +628,9 @@ func runChan(c *vCase) obj {
 	case <-time.After(150 * time.Millisecond):
 		producer = "blocked"
 	}
+	if c.Via != "" && c.Via != "procdir" {
+		os.RemoveAll(filepath.Join(os.TempDir(), "hr-verif-chan-"+strconv.Itoa(os.Getpid())+"-"+strconv.FormatInt(c.Jitter, 10)))
+	}
 	res := obj{"consumer": consumer, "producer": producer}
 	if consumer == "returned" {
 		res["received"] = received
@@ -630,6 +638,31 @@ func runChan(c *vCase) obj {
 		res["received"] = []interface{}{}
 	}
 	return res
+}
+
+// chanFile makes the thing ParseFile is pointed at: a regular file or a named pipe holding src, or a directory
+// (which opens and then fails to read)
+func chanFile(via string, src []byte, id int64) string {
+	name := filepath.Join(os.TempDir(), "hr-verif-chan-"+strconv.Itoa(os.Getpid())+"-"+strconv.FormatInt(id, 10))
+	os.RemoveAll(name)
+	switch via {
+	case "file":
+		os.WriteFile(name, src, 0o600)
+	case "fifo":
+		if err := syscall.Mkfifo(name, 0o600); err == nil {
+			go func() {
+				if f, err := os.OpenFile(name, os.O_WRONLY, 0); err == nil {
+					f.Write(src)
+					f.Close()
+				}
+			}()
+		}
+	case "dir":
+		os.Mkdir(name, 0o700)
+	case "procdir":
+		return "/proc/self/task"
+	}
+	return name
 }
 
 type jitterReader struct {
